@@ -105,12 +105,11 @@ var (
 	fsCSV     = flagSet{"bip16+dersig+cltv+csv", fsCLTV.f | txscript.ScriptVerifyCheckSequenceVerify, false}
 	fsSegwit  = flagSet{"segwit", fsCSV.f | txscript.ScriptVerifyWitness | txscript.ScriptStrictMultiSig, false}
 	fsTaproot = flagSet{"taproot", fsSegwit.f | txscript.ScriptVerifyTaproot, false}
-	// version-gated variants: a block with header version < 3 / < 4 lacks DERSIG / CLTV
-	fsTapNoDER  = flagSet{"taproot-v2block", fsTaproot.f &^ (txscript.ScriptVerifyDERSignatures | txscript.ScriptVerifyCheckLockTimeVerify), false}
-	fsTapNoCLTV = flagSet{"taproot-v3block", fsTaproot.f &^ txscript.ScriptVerifyCheckLockTimeVerify, false}
-	fsStd       = flagSet{"standard", txscript.StandardVerifyFlags, true}
+	// (version-gated variants without DERSIG/CLTV but with WITNESS are unreachable: blocks
+	// with header version < 3 / < 4 are rejected once BIP66 / BIP65 are active.)
+	fsStd = flagSet{"standard", txscript.StandardVerifyFlags, true}
 
-	allFlagSets   = []flagSet{fsNone, fsP2SH, fsDER, fsCLTV, fsCSV, fsSegwit, fsTaproot, fsTapNoDER, fsTapNoCLTV, fsStd}
+	allFlagSets   = []flagSet{fsNone, fsP2SH, fsDER, fsCLTV, fsCSV, fsSegwit, fsTaproot, fsStd}
 	coreFlagSets  = []flagSet{fsNone, fsP2SH, fsDER, fsCLTV, fsCSV, fsSegwit, fsTaproot, fsStd}
 	smallFlagSets = []flagSet{fsNone, fsSegwit, fsTaproot, fsStd}
 )
@@ -240,6 +239,13 @@ func runBtcd(s *Spend) (ok bool, errStr string, panicked bool) {
 		return false, err.Error(), false
 	}
 	return true, "", false
+}
+
+func runRefQuirks(s *Spend, q refscript.Quirks) refscript.Err {
+	po := s.PrevOuts[s.Idx]
+	in := s.Tx.TxIn[s.Idx]
+	c := &refscript.Checker{Tx: s.Tx, Idx: s.Idx, Amount: po.Value, Spent: s.PrevOuts, Quirks: q}
+	return refscript.VerifyScript(in.SignatureScript, po.PkScript, in.Witness, toCore(s.Flags), c)
 }
 
 func runRef(s *Spend) refscript.Err {
